@@ -43,3 +43,39 @@ pub proof fn lemma_hash_depends_only_on_key(v1: Pos, v2: Pos)
     ensures spec_hash(v1) == spec_hash(v2), spec_pawn_hash(v1) == spec_pawn_hash(v2)
 {
 }
+
+/// "no piece" contributes nothing: rows 0 and 7 of the piece-square table are all zero (Kani: zobrist::accessors_in_bounds_and_zero_rows)
+#[verifier::external_body]
+pub proof fn axiom_key_zero(sq: u32, color: u32) ensures key(0, sq, color) == 0 {}
+
+/// the hash delta of a packed move, written the way Bitboard::zobrist_xor computes it: (full delta, pawn delta)
+pub open spec fn zx_spec(m: Move) -> (u64, u64) {
+    let b = m.bits;
+    let me = f_side_to_move(b);
+    let op = (1 - me) as u32;
+    let p0: u64 = 0 ^ BLACK_TO_MOVE_HASH_SPEC();
+    let r1: u64 = if f_self_lost_king_side_castle(b) != 0 { 0 ^ castle_key(6, me) } else { 0 };
+    let r2 = if f_self_lost_queen_side_castle(b) != 0 { r1 ^ castle_key(5, me) } else { r1 };
+    let r3 = if f_opponent_lost_king_side_castle(b) != 0 { r2 ^ castle_key(6, op) } else { r2 };
+    let r4 = if f_opponent_lost_queen_side_castle(b) != 0 { r3 ^ castle_key(5, op) } else { r3 };
+    let p1 = if f_previous_en_passant_square(b) != 0 { p0 ^ ep_key(f_previous_en_passant_square(b) % 8) } else { p0 };
+    let p2 = if f_next_en_passant_square(b) != 0 { p1 ^ ep_key(f_next_en_passant_square(b) % 8) } else { p1 };
+    let moved = f_piece_moved(b);
+    let promo = f_promotion_piece(b);
+    let att = f_piece_attacked(b);
+    let src = f_source_square(b);
+    let dst = f_target_square(b);
+    let (r, p): (u64, u64) =
+        if f_castle_move(b) != 0 {
+            (((((r4 ^ key(4, castle_rook_from_sq(src, dst), me)) ^ key(4, castle_rook_to_sq(src, dst), me)) ^ key(6, src, me)) ^ key(6, dst, me)), p2)
+        } else if f_en_passant_attack(b) != 0 {
+            (r4, ((p2 ^ key(1, src, me)) ^ key(1, dst, me)) ^ key(1, if me == 0 { (dst + 8) as u32 } else { (dst - 8) as u32 }, op))
+        } else {
+            let (ra, pa): (u64, u64) =
+                if promo != 0 { (r4 ^ key(promo, dst, me), p2 ^ key(1, src, me)) }
+                else if moved == 1 { (r4, (p2 ^ key(1, src, me)) ^ key(1, dst, me)) }
+                else { ((r4 ^ key(moved, src, me)) ^ key(moved, dst, me), p2) };
+            if att == 1 { (ra, pa ^ key(1, dst, op)) } else { (ra ^ key(att, dst, op), pa) }
+        };
+    (r ^ p, p)
+}
